@@ -44,13 +44,18 @@ def main():
         signal.signal(signal.SIGALRM, core._alarm)
         if hasattr(check, 'init_worker'):
             check.init_worker()
-        v = core.judge_one(check, rec['case'])
+        if rec.get('conformance'):
+            # a violation of an end-to-end conformance step (real CLI / real server) is replayed by that step
+            n, vs = check.conformance_one(rec['case'])
+            v = {'viol': vs}
+        else:
+            v = core.judge_one(check, rec['case'])
         if v.get('harness'):
             sys.stderr.write(v['harness'])
             return 2
         hit = [x for x in v.get('viol', []) if x['sig'] == rec.get('signature')] or v.get('viol', [])
         if not a.quiet:
-            if hasattr(check, 'explain'):
+            if hasattr(check, 'explain') and not rec.get('conformance'):
                 print(check.explain(rec['case']))
             for x in hit:
                 print('clause: %s\nsignature: %s\ndetail: %s' % (x['clause'], x['sig'], json.dumps(x.get('detail'), ensure_ascii=False, default=repr)))
